@@ -18,6 +18,9 @@ structure Rep where
   writer : Bytes
   /-- clock ids (= writer public keys) the replica's access controller refuses -/
   deny : List Bytes := []
+  /-- hashes whose entry OBJECT in this replica is an invalid variant (tampered copy) -/
+  invalid : List Hash := []
+  hasWrongId : Bool := false
   /-- not causally closed any more (bounded join / limited load, or merged from such a replica) -/
   partialLog : Bool := false
   /-- tie history and the replica came out of a loader: the relative order of tied entries then depends on
@@ -156,6 +159,17 @@ def handle (s : St) (line : String) : St :=
       let implH := implE.filter (fun e => !referenced implE e.hash)
       let s := { s with pendingPC := some (r.toNat!, toInt! pc, implE, implH, rep.writer, ie) }
       s.setRep r.toNat! { rep with log := l' }
+  | ["T", r, src, inv, wid] =>
+    let s := { s with lastOp := "tamper" }
+    match s.rep? src.toNat! with
+    | none => s.diff "tamper-unknown-src" src ""
+    | some sr =>
+      let widH := s.hs (parseList wid)
+      let fix (e : Entry) : Entry := if widH.contains e.hash then { e with logId := strBytes "Z" } else e
+      let l' : Log := { sr.log with entries := sr.log.entries.map fix, heads := sr.log.heads.map fix,
+                                    clock := { id := sr.log.clock.id, time := maxTime sr.log.heads 0 } }
+      s.setRep r.toNat! { sr with log := l', invalid := sr.invalid ++ s.hs (parseList inv), deny := [],
+                                  hasWrongId := sr.hasWrongId || !widH.isEmpty, partialLog := true, lastE := [], lastV := [] }
   | ["S", r, clk] =>
     let s := { s with lastOp := "setid" }
     match s.rep? r.toNat! with
@@ -168,7 +182,8 @@ def handle (s : St) (line : String) : St :=
       if res == "panic" then s.diff "join" "no-panic" "panic" |>.spec "C16" "joinNoPanic" false s!"join {r} {r2} {size}" else
       if r == r2 then (if res == "ok" then s else s.diff "join.self" "ok" res) else
       let sz := toInt! size
-      match join a.log b.log.id b.log.entries b.log.heads sz (fun e => !a.deny.contains e.clock.id) with
+      match join a.log b.log.id b.log.entries b.log.heads sz
+          (fun e => !a.deny.contains e.clock.id && !b.invalid.contains e.hash) with
       | .err => if res == "err" then s.count "cmp:join.rejected" else s.diff "join.result" "err" res
       | .ok l' =>
         let s := if res == "ok" then s else s.diff "join.result" "ok" res
@@ -183,7 +198,13 @@ def handle (s : St) (line : String) : St :=
               { s with pendingJoinN := some (r.toNat!, hashes keep) }
             | .err => s
           else s
-        s.setRep r.toNat! { a with log := l', partialLog := a.partialLog || cut || (b.partialLog && a.log.id == b.log.id),
+        -- C06: everything that was added is valid, authorised and carries the log's id
+        let added := l'.entries.filter (fun e => !has a.log.entries e.hash)
+        let s := s.spec "C06" "admittedValid" (added.all (fun e =>
+          !a.deny.contains e.clock.id && !b.invalid.contains e.hash && e.logId == a.log.id))
+          (s!"join {r} {r2}: " ++ showH s ((added.filter (fun e => !( !a.deny.contains e.clock.id && !b.invalid.contains e.hash && e.logId == a.log.id))).map (·.hash)))
+        s.setRep r.toNat! { a with log := l', invalid := a.invalid.filter (fun h => has l'.entries h),
+                                   partialLog := a.partialLog || cut || ((b.partialLog || b.hasWrongId) && a.log.id == b.log.id),
                                    orderFree := a.orderFree || (b.orderFree && a.log.id == b.log.id) }
     | _, _ => s.diff "join-unknown-replica" r r2
   | ["L", r, kind, src, n, sk, clk, res] =>
